@@ -442,22 +442,31 @@ abbrev InFragmentM : Ast → Prop := Frag true
 def callableName (B : Builtins) (name : Str) : Bool :=
   (B.func name).isSome || defaultMacros.any (·.toList = name)
 
-/-- The loop-variable arguments of a comprehension macro are identifiers (`args`: last argument first).
-    Only the arities the macros accept are constrained; every other call is unconstrained. -/
-def macroShape (name : Str) (args : List Ast) : Bool :=
+/-- An argument that may serve as loop variable: an identifier that is not the name of a built-in function
+    or macro.  (A loop variable named like a function is outside the fragment: `check_for_const` takes such a
+    name for closed, so an inner call such as `dyn([size])` in `[1].map(size, dyn([size]))` is folded with
+    `size` unbound — a defect of the folding rule, reproduced by the model.) -/
+def loopVarOK (B : Builtins) (a : Ast) : Bool :=
+  match identOf a with
+  | some x => !callableName B x
+  | none => false
+
+/-- The loop-variable arguments of a comprehension macro are proper loop variables (`args`: last argument
+    first).  Only the arities the macros accept are constrained; every other call is unconstrained. -/
+def macroShape (B : Builtins) (name : Str) (args : List Ast) : Bool :=
   if name = "reduce".toList then
     match args with
-    | [_, _, n, c] => (identOf c).isSome && (identOf n).isSome
+    | [_, _, n, c] => loopVarOK B c && loopVarOK B n
     | _ => true
   else if name = "map".toList then
     match args with
-    | [_, xb] => (identOf xb).isSome
-    | [_, _, xb] => (identOf xb).isSome
+    | [_, xb] => loopVarOK B xb
+    | [_, _, xb] => loopVarOK B xb
     | _ => true
   else if name = "all".toList || name = "exists".toList || name = "exists_one".toList
       || name = "filter".toList then
     match args with
-    | [_, xb] => (identOf xb).isSome
+    | [_, xb] => loopVarOK B xb
     | _ => true
   else true
 
@@ -474,14 +483,14 @@ def methodOK (B : Builtins) (name : Str) : Bool :=
     (the VM leaves a bound method on the stack otherwise, which is no value). -/
 def opsShape (B : Builtins) : List MOp → Bool
   | [] => true
-  | .access _ _ name :: .call _ args :: rest => macroShape name args && methodOK B name && opsShape B rest
+  | .access _ _ name :: .call _ args :: rest => macroShape B name args && methodOK B name && opsShape B rest
   | .access _ _ name :: rest => !callableName B name && opsShape B rest
   | .index _ _ :: rest => opsShape B rest
   | .call _ _ :: _ => false
 
 /-- … and a call directly behind the primary needs an identifier as primary (`f(..)`). -/
 def memberShape (B : Builtins) : Prim → List MOp → Bool
-  | .ident _ f, .call _ args :: rest => macroShape f args && opsShape B rest
+  | .ident _ f, .call _ args :: rest => macroShape B f args && opsShape B rest
   | _, chain => opsShape B chain
 
 /-- The trees of the larger fragment: `Frag true` plus type patterns of `match`, map literals, f-strings
